@@ -28,7 +28,7 @@ from fractions import Fraction
 import numpy as np
 from common import *
 
-IMPORTS = ("From CV Require Import Base.Cmp Base.QcLin Model.C06_RTO.\n"
+IMPORTS = ("From CV Require Import Base.Cmp Base.QcLin Model.C06_RTO Model.C06_FD.\n"
            "From Coq Require Import QArith Qcanon.")
 RULE = ("configurations = interface (experimental, legacy) x target (Posterior, MultipleLikelihoodPosterior with 2-3 likelihoods, "
         "legacy 5-tuple) x model (matrix, function pair) x noise and prior Gaussian in all 4x4 input forms (cov/prec/sqrtcov/sqrtprec "
@@ -188,6 +188,8 @@ ANY_POOL = [2.0, 3.0, 0.5, 5.0, 1.5]
 ROOT_POOL = [1.0, 2.0, 0.5, 4.0, 3.0, 0.25, 5.0, 1.5]
 
 
+STRUCT = ["upper", "lower", "perm", "symmetric"]
+STRUCT_I = [0]            # cycles deterministically through the structures of full sqrtcov / sqrtprec factors
 NARROW = [False]          # large-dimension cells draw variances from a narrow pool (conditioning of a 76-dim posterior)
 
 
@@ -248,14 +250,41 @@ def gen_gspec(rng, dim, form, shape):
         elif form == "prec":
             g["value"], g["aux"] = tofloat(f_matmul(f_T(U), U)), None
         elif form == "sqrtcov":
-            g["value"], g["aux"] = tofloat(Ui), tofloat(U)
+            # structure of the factor R (the code forms cov = R R^T): upper / lower triangular, signed permutation of a
+            # triangular factor (non-triangular, non-symmetric, either sign of the determinant), symmetric
+            st = STRUCT[STRUCT_I[0] % 4]
+            STRUCT_I[0] += 1
+            g["struct"] = st
+            if st == "upper":
+                R, Ri = Ui, U
+            elif st == "lower":
+                R, Ri = f_T(Ui), f_T(U)
+            elif st == "perm":
+                perm = list(range(dim))
+                rng.shuffle(perm)
+                sg = [rng.choice([1, -1]) for _ in range(dim)]
+                Q = [[Fraction(sg[i]) if perm[i] == j else Fraction(0) for j in range(dim)] for i in range(dim)]
+                R, Ri = f_matmul(Ui, Q), f_matmul(f_T(Q), U)
+            else:
+                R, Ri = f_matmul(Ui, f_T(Ui)), f_matmul(f_T(U), U)
+            g["value"], g["aux"] = tofloat(R), tofloat(Ri)
         else:
-            while True:
-                S = [[Fraction(rng.randint(-2, 2)) for _ in range(dim)] for _ in range(dim)]
-                for i in range(dim):
-                    S[i][i] += rng.choice([2, 3, -3])
-                if f_det(S) != 0:
-                    break
+            st = STRUCT[STRUCT_I[0] % 4]
+            STRUCT_I[0] += 1
+            g["struct"] = st
+            if st == "upper":
+                S = U
+            elif st == "lower":
+                S = f_T(U)
+            elif st == "symmetric":
+                S = f_matmul(f_T(U), U)
+            else:
+                while True:
+                    S = [[Fraction(rng.randint(-2, 2)) for _ in range(dim)] for _ in range(dim)]
+                    for i in range(dim):
+                        S[i][i] += rng.choice([2, 3, -3])
+                    if f_det(S) != 0:
+                        break
             g["value"], g["aux"] = tofloat(S), None
     return g
 
@@ -282,9 +311,92 @@ def py_user_prec(g):
     return X if form == "cov" else f_matmul(f_T(X), X)       # sqrtcov R: the code's convention cov = R R^T
 
 
+DECLS_1D = ["dense", "int", "f32", "noncontig", "readonly", "list"]
+DECLS_2D = ["dense", "int", "f32", "fortran", "noncontig", "readonly", "csr", "csc", "dia", "coo"]
+KEEP = []          # every array handed to the implementation, with a pristine copy: re-read at the end of a configuration
+
+
+def declare(v, decl):
+    """the same VALUES handed over in another declaration style (dtype, memory layout, writability, sparse storage
+    format); falls back to a float64 C-contiguous array when the style cannot represent the values exactly"""
+    a = np.array(v, dtype=float)
+    if decl == "list" and a.ndim == 1:
+        return [float(x) for x in a]
+    if decl == "int" and np.all(a == np.round(a)) and np.all(np.abs(a) < 2 ** 15):       # (larger integers: int64 products overflow inside numpy)
+        out = a.astype(np.int64)
+    elif decl == "f32" and np.all(a.astype(np.float32).astype(float) == a):
+        out = a.astype(np.float32)
+    elif decl == "fortran" and a.ndim == 2:
+        out = np.asfortranarray(a)
+    elif decl == "noncontig":
+        big = np.zeros(tuple(2 * d for d in a.shape))
+        big[tuple(slice(None, None, 2) for _ in a.shape)] = a
+        out = big[tuple(slice(None, None, 2) for _ in a.shape)]
+    elif decl == "readonly":
+        out = a.copy()
+        out.setflags(write=False)
+    elif decl in ("csr", "csc", "dia", "coo") and a.ndim == 2 and a.shape[0] >= 2:   # (a 1 x 1 sparse matrix falls into Gaussian's scalar branch, which raises: C04/C05's subject)
+        import scipy.sparse as sps
+        out = getattr(sps, decl + "_matrix")(a)
+        KEEP.append((out, out.toarray().copy()))
+        return out
+    else:
+        out = a
+    KEEP.append((out, np.array(out, copy=True)))
+    return out
+
+
+def keep_alive_violations():
+    bad = []
+    for obj, ref in KEEP:
+        cur = obj.toarray() if hasattr(obj, "toarray") else np.asarray(obj)
+        if cur.shape != ref.shape or not np.array_equal(cur, ref):
+            bad.append("an input array (shape %s, %s) was modified by the implementation" % (ref.shape, type(obj).__name__))
+    del KEEP[:]
+    return bad
+
+
 def gauss_kwargs(g):
     v = g["value"]
-    return {g["form"]: (float(v) if g["shape"] == "scalar" else np.array(v, dtype=float))}
+    return {g["form"]: (float(v) if g["shape"] == "scalar" else declare(v, g.get("decl", "dense")))}
+
+
+def decl_vec(v, decl):
+    return declare(v, decl if decl in DECLS_1D else "dense")
+
+
+# ---- the documented difference / precision operators, independent of the objects under test ----
+def ref_fd(order, N, bc):
+    """cuqi.operator First/SecondOrderFiniteDifference in 1-d as documented (spdiags construction), integers"""
+    if order == 0:
+        return [[int(i == j) for j in range(N)] for i in range(N)]
+    if order == 1:
+        if bc == "neumann":
+            return [[-1 if j == i else (1 if j == i + 1 else 0) for j in range(N)] for i in range(N - 1)]
+        D = [[(1 if (j == i and i < N) else (-1 if j == i - 1 else 0)) for j in range(N)] for i in range(N + 1)]
+        if bc == "periodic":
+            D[N][0] = 1
+            D[0][N - 1] = -1
+        return D
+    if bc == "zero":
+        return [[{0: -1, 1: 2, 2: -1}.get(i - j, 0) for j in range(N)] for i in range(N + 2)]
+    if bc == "neumann":
+        return [[{0: -1, 1: 2, 2: -1}.get(j - i, 0) for j in range(N)] for i in range(N - 2)]
+    raise ValueError("no reference for order %d %s" % (order, bc))
+
+
+def ref_diff_op(order, n, bc, two_d):
+    if not two_d:
+        return ref_fd(order, n, bc)
+    N = int(round(n ** 0.5))
+    D = np.array(ref_fd(order, N, bc))
+    I = np.eye(N, dtype=int)
+    return np.vstack([np.kron(I, D), np.kron(D, I)]).astype(int).tolist()
+
+
+def ref_prec_op(order, n, bc, two_d):
+    D = np.array(ref_diff_op(order, n, bc, two_d))
+    return (D.T @ D).astype(int).tolist()
 
 
 # ---------------------------------------------------------------------------------------------
@@ -370,8 +482,22 @@ def dom_geom(cuqi, spec):
     return spec["n"]
 
 
-def mk_model(cuqi, A, mkind, m, n):
+def mk_model(cuqi, A, mkind, m, n, decl="dense"):
     A = np.array(A, dtype=float)
+    if mkind == "matrix" and isinstance(n, int) and decl != "dense":
+        return cuqi.model.LinearModel(declare(A, decl if decl in DECLS_2D else "dense"))
+    if mkind == "function-buf" and isinstance(n, int):
+        # callables that return PERSISTENT buffers (the same array object on every call): the sampler must not keep references
+        fb, ab = np.zeros(m), np.zeros(n)
+
+        def fwd(x, A=A, fb=fb):
+            fb[:] = A @ x
+            return fb
+
+        def adj(y, A=A, ab=ab):
+            ab[:] = A.T @ y
+            return ab
+        return cuqi.model.LinearModel(fwd, adj, range_geometry=m, domain_geometry=n)
     if not isinstance(n, int):
         # 2-d domain: function pair acting on images (a matrix-based LinearModel with an Image2D domain is C07/C12's subject)
         shp = n.fun_shape
@@ -385,7 +511,7 @@ def mk_model(cuqi, A, mkind, m, n):
 def mk_prior(cuqi, spec):
     p, n = spec["prior"], spec["n"]
     if p["kind"] == "gaussian":
-        mean = float(p["mean"][0]) if p.get("scalar_mean") else np.array(p["mean"], dtype=float)
+        mean = float(p["mean"][0]) if p.get("scalar_mean") else decl_vec(p["mean"], spec.get("decl", "dense"))
         return cuqi.distribution.Gaussian(mean, geometry=n, name="x", **gauss_kwargs(p["g"]))
     if p["kind"] == "gmrf":
         mean = float(p["mean"][0]) if p.get("scalar_mean") else np.array(p["mean"], dtype=float)
@@ -416,10 +542,10 @@ def mk_target(cuqi, spec):
     x = mk_prior(cuqi, spec)
     ys, data = [], {}
     for i, l in enumerate(spec["liks"]):
-        model = mk_model(cuqi, l["A"], spec["mkind"], len(l["b"]), dom_geom(cuqi, spec))
+        model = mk_model(cuqi, l["A"], spec["mkind"], len(l["b"]), dom_geom(cuqi, spec), spec.get("decl", "dense"))
         y = cuqi.distribution.Gaussian(model(x), name="y%d" % i, **gauss_kwargs(l["noise"]))
         ys.append(y)
-        data["y%d" % i] = np.array(l["b"], dtype=float)
+        data["y%d" % i] = decl_vec(l["b"], spec.get("decl", "dense"))
     return cuqi.distribution.JointDistribution(x, *ys)(**data)
 
 
@@ -476,40 +602,100 @@ def quiet():
     return contextlib.redirect_stdout(io.StringIO())
 
 
+class Recorder:
+    """callback handed to every sampler: records (sample, index) of every call"""
+
+    def __init__(self):
+        self.calls = []
+
+    def __call__(self, sample, index):
+        self.calls.append((np.array(sample, dtype=float).copy(), int(index)))
+
+
+class ScriptRng:
+    """stands for the np.random.RandomState the legacy UGLA accepts as `rng`: delivers the scripted normal draw"""
+
+    def __init__(self):
+        self.e, self.log = None, []
+
+    def normal(self, loc, scale, size):
+        self.log.append(("rng.normal", size))
+        assert int(np.prod(size)) == len(self.e), "rng.normal called with size %r, expected %d numbers" % (size, len(self.e))
+        return np.asarray(loc) + np.asarray(scale) * np.array(self.e, dtype=float).reshape(size)
+
+
 def make_sampler(cuqi, spec, target, xcur):
     kind = spec["kind"]
     x0 = np.array(xcur, dtype=float)
+    if spec.get("x0_default") and not np.any(x0):
+        x0 = None                                   # optional argument left out: both interfaces default to zeros
+    cb = Recorder()
     if kind == "rto":
         if spec["iface"] == "exp":
-            s = cuqi.experimental.mcmc.LinearRTO(target, initial_point=x0, maxit=MAXIT, tol=TOL)
+            s = cuqi.experimental.mcmc.LinearRTO(target, initial_point=x0, maxit=MAXIT, tol=TOL, callback=cb)
             s.initialize()
         else:
-            s = cuqi.sampler.LinearRTO(target, x0=x0, maxit=MAXIT, tol=TOL)
+            s = cuqi.sampler.LinearRTO(target, x0=x0, maxit=MAXIT, tol=TOL, callback=cb)
     else:
         if spec["iface"] == "exp":
-            s = cuqi.experimental.mcmc.UGLA(target, initial_point=x0, maxit=MAXIT, tol=TOL, beta=spec["beta"])
+            s = cuqi.experimental.mcmc.UGLA(target, initial_point=x0, maxit=MAXIT, tol=TOL, beta=spec["beta"], callback=cb)
             s.initialize()
         else:
-            s = cuqi.sampler.UGLA(target, x0=x0, maxit=MAXIT, tol=TOL, beta=spec["beta"])
+            kw = {}
+            if spec.get("ugla_rng"):
+                kw["rng"] = ScriptRng()
+            s = cuqi.sampler.UGLA(target, x0=x0, maxit=MAXIT, tol=TOL, beta=spec["beta"], callback=cb, **kw)
+    s._verif_cb = cb
     return s
 
 
+ENTRIES = {"exp": ["step", "sample", "warmup"], "legacy": ["sample", "sample_adapt", "burnin"]}
+
+
 def one_draw(cuqi, spec, sampler, xcur, e, cap):
-    """one transition from xcur with the standard-normal draw replaced by e; returns (x, cgls-record, rng log)"""
+    """one transition from xcur with the standard-normal draw replaced by e, through the entry point spec['entry']
+    (exp: step() | sample(1) | warmup(1); legacy: sample(2,0) | sample_adapt(2,0) | sample(1,1) with one burn-in draw);
+    returns (x, cgls-record, rng log)"""
     xcur = np.array(xcur, dtype=float)
+    xcur0 = xcur.copy()
     ncalls = len(cap.calls)
+    entry = spec.get("entry") or ENTRIES[spec["iface"]][0]
+    cb = getattr(sampler, "_verif_cb", None)
+    ncb = len(cb.calls) if cb else 0
+    rng = getattr(sampler, "rng", None)
+    if isinstance(rng, ScriptRng):
+        rng.e, rng.log = list(e), []
     with ScriptedRandom(script=scripted(e)) as sr, quiet():
         if spec["iface"] == "exp":
-            sampler.current_point = xcur.copy()
-            sampler.step()
+            sampler.current_point = xcur
+            if entry == "step":
+                sampler.step()
+            elif entry == "sample":
+                sampler.sample(1)
+            else:
+                sampler.warmup(1)
             x = np.array(sampler.current_point, dtype=float)
+            if entry != "step":
+                stored = np.array(sampler.get_samples().samples[:, -1], dtype=float)
+                assert np.array_equal(stored, x), "the stored sample is not the state after the transition"
+                assert cb is None or (len(cb.calls) == ncb + 1 and np.array_equal(cb.calls[-1][0], x)), "callback did not receive the new sample"
         else:
-            sampler.x0 = xcur.copy()
-            S = sampler.sample(2, 0)
-            x = np.array(S.samples[:, 1], dtype=float)
-            assert np.array_equal(S.samples[:, 0], xcur), "legacy chain does not start at x0"
+            sampler.x0 = xcur
+            if entry == "burnin":
+                S = sampler.sample(1, 1)
+                x = np.array(S if not hasattr(S, "samples") else S.samples[:, -1], dtype=float).ravel()
+            else:
+                S = sampler.sample(2, 0) if entry == "sample" else sampler.sample_adapt(2, 0)
+                x = np.array(S.samples[:, 1], dtype=float)
+                assert np.array_equal(S.samples[:, 0], xcur0), "legacy chain does not start at x0"
+            assert cb is None or (len(cb.calls) == ncb + 1 and np.array_equal(cb.calls[-1][0], x) and cb.calls[-1][1] == 1), \
+                "callback did not receive (new sample, index 1)"
+    assert np.array_equal(xcur, xcur0), "the array holding the current state was modified in place"
     assert len(cap.calls) == ncalls + 1, "a transition must hand exactly one problem to CGLS"
-    assert len(sr.log) == 1, "a transition must draw exactly one normal vector, drew %r" % (sr.log,)
+    nlog = len(sr.log) + (len(rng.log) if isinstance(rng, ScriptRng) else 0)
+    assert nlog == 1, "a transition must draw exactly one normal vector, drew %r" % (sr.log,)
+    if isinstance(rng, ScriptRng):
+        assert len(sr.log) == 0, "the global numpy generator was used although rng was given"
     return x, cap.calls[-1], sr.log
 
 
@@ -537,7 +723,10 @@ def observe(cuqi, spec, target=None, sampler=None):
             obs["S_liks"] = [dense(l.distribution.sqrtprec).tolist() for l in sampler.likelihoods]
             obs["S_prior"] = dense(sampler.prior.sqrtprec).tolist()
             if spec["prior"]["kind"] == "gmrf":
-                obs["Pop"] = dense(sampler.prior._prec_op.get_matrix()).tolist()
+                # the GMRF's structure matrix: the DOCUMENTED operator, built here; the object's own is only compared with it
+                pg = spec["prior"]
+                obs["Pop"] = [[float(v) for v in r] for r in ref_prec_op(pg["order"], n, pg["bc"], bool(pg.get("two_d")))]
+                obs["op_matches"] = bool(np.array_equal(dense(sampler.prior._prec_op.get_matrix()), np.array(obs["Pop"])))
             b_t = np.array(sampler.b_tild, dtype=float)
             Mop = sampler.M
             assert callable(Mop), "stacked operator is expected in function form (every LinearModel is callable)"
@@ -546,8 +735,10 @@ def observe(cuqi, spec, target=None, sampler=None):
             obs["M_fwd"] = [np.array(Mop(np.array(basis(n, j)), 1), dtype=float).tolist() for j in range(n)]
             obs["M_adj"] = [np.array(Mop(np.array(basis(p, i)), 2), dtype=float).tolist() for i in range(p)]
         else:
-            D = dense(target.prior._diff_op.get_matrix())
+            pl = spec["prior"]
+            D = np.array(ref_diff_op(1, n, pl["bc"], bool(pl.get("two_d"))), dtype=float)      # documented operator, built here
             obs["D"] = D.tolist()
+            obs["op_matches"] = bool(np.array_equal(dense(target.prior._diff_op.get_matrix()), D))
             obs["S_liks"] = [dense(target.likelihood.distribution.sqrtprec).tolist()]
             p = len(spec["liks"][0]["b"]) + D.shape[0]
         draws = []
@@ -585,8 +776,19 @@ def observe(cuqi, spec, target=None, sampler=None):
             rec_draw("prev", x.tolist(), estar2)
             rec_draw(0, spec["xcurs"][0], estar2)
             obs["estar"] = estar
+            # current states of extreme magnitude relative to the draw (2^-30, 2^22, 2^27 times the posterior's scale, kept
+            # below 2^38 so that CGLS's absolute clause normx*tol >= 1 stays out of play): "converged" is relative to the
+            # start, so these are certified through the normal equations (relative to the initial residual) and compared
+            # with the reference draw within the solver's own accuracy 1e-8 |x_cur|
+            sx = float(spec.get("xscale", 1.0))
+            for k in (-30, 22, 27):
+                fac = 2.0 ** min(k, 38 - int(math.ceil(math.log2(sx * 8))))
+                xe = [v * sx * fac for v in spec["xdir"]]
+                rec_draw("extreme%+d" % k, xe, estar2)
+                draws[-1]["extreme"] = True
         obs["draws"] = draws
         obs["p"] = p
+        obs["inputs_modified"] = keep_alive_violations()
     return obs
 
 
@@ -676,7 +878,8 @@ def oracle_check(spec, obs):
         for d in obs["draws"]:
             key = tuple(d["e"])
             if key in ref:
-                if np.max(np.abs(np.array(d["x"]) - ref[key])) > 1e-6 * sc:
+                allow = 1e-6 * sc + (1e-8 * max(abs(v) for v in d["xcur_v"]) if d.get("extreme") else 0.0)
+                if not np.all(np.isfinite(d["x"])) or np.max(np.abs(np.array(d["x"]) - ref[key])) > allow:
                     return "state", "same perturbation, current state %r: draw %s vs %s from the first state" % (d["xcur"], d["x"], ref[key].tolist())
             ref.setdefault(key, np.array(d["x"]))
         # affine: x(e*) = x0 + G e*
@@ -747,6 +950,8 @@ def gen_rto_spec(rng, idx, iface, target, mkind, noise_cells, prior_cell, shape_
         n = 9 if (prior_cell[2] == 2 or idx % 3 == 2) else 4      # 3 x 3 or 2 x 2 image
     if prior_cell[0] == "gmrf" and prior_cell[3] == "2d":
         mkind = "function"
+    if prior_cell[0] == "gaussian" and idx % 16 == 9 and patname == "base":
+        n = 1                                             # smallest size: scalar unknown
     k = len(noise_cells)
     liks = []
     for (f, s) in noise_cells:
@@ -762,6 +967,11 @@ def gen_rto_spec(rng, idx, iface, target, mkind, noise_cells, prior_cell, shape_
                 break
         liks.append({"A": A, "b": [float(rng.randint(-5, 5)) for _ in range(m)], "noise": gen_gspec(rng, m, f, s)})
     prior = gen_prior(rng, n, prior_cell)
+    # falsy but legitimate values: all-zero data, zero mean
+    if idx % 8 == 5:
+        liks[0]["b"] = [0.0] * len(liks[0]["b"])
+    if idx % 8 == 6 and "mean" in prior:
+        prior["mean"] = [0.0] * len(prior["mean"])
     spec = {"kind": "rto", "iface": iface, "target": target, "mkind": mkind, "n": n, "liks": liks, "prior": prior,
             "xcurs": [[0.0] * n, rand_dyadic_vec(rng, n), [float(rng.randint(-30, 30)) for _ in range(n)]],
             "shape": shape_kind, "idx": idx}
@@ -809,7 +1019,7 @@ TINY_STD_EXP = {"cov": -17, "prec": 17, "sqrtcov": -34, "sqrtprec": 34}     # st
 
 def lattice_rto(ctx):
     """deterministic enumeration of cells (independent of the seed); the seed only chooses values inside"""
-    N = ctx.n(64, 600)
+    N = ctx.n(48, 480)
     specs = []
     shapes = ["over", "under", "square"]
     for i in range(N):
@@ -818,7 +1028,7 @@ def lattice_rto(ctx):
         target = ["posterior", "mlp", "posterior", "mlp", "tuple"][tsel]
         if target == "tuple" and iface == "exp":
             target = "posterior"
-        mkind = ["matrix", "function"][(i // 3) % 2]
+        mkind = ["matrix", "function", "function-buf"][(i // 3) % 3]
         k = 1 if target != "mlp" else 2 + ((i // 7) % 2)
         noise = [NOISE_CELLS[(i + 5 * j) % 16] for j in range(k)]
         pc = PRIOR_CELLS[(i * 5 + i // 39) % len(PRIOR_CELLS)]
@@ -859,10 +1069,16 @@ BIG = 76
 
 
 def lattice_big(ctx):
-    cells = [("prior", "cov", "vector"), ("noise", "prec", "full")]
+    """(role, form | bc, shape | order, dimension, Coq-side read-off?)"""
+    cells = [("prior", "cov", "vector", 76, False), ("noise", "prec", "full", 76, False), ("gmrf", "zero", 1, 76, False)]
     if ctx.thorough:
-        cells += [("prior", f, s) for f in FORMS for s in ("scalar", "full")] + \
-                 [("noise", f, s) for f in FORMS for s in ("vector", "full")] + [("prior", "sqrtprec", "diagmat"), ("noise", "cov", "diagmat")]
+        # 75 = MIN_DIM_SPARSE: the last size on the dense side
+        cells += [("prior", "sqrtcov", "full", 75, False)] + [("prior", f, s, 76, False) for f in FORMS for s in ("scalar", "full")] + \
+                 [("noise", f, s, 76, False) for f in FORMS for s in ("vector", "full")] + \
+                 [("prior", "sqrtprec", "diagmat", 76, False), ("noise", "cov", "diagmat", 76, False),
+                  ("gmrf", "neumann", 1, 76, False), ("gmrf", "zero", 0, 76, False), ("gmrf", "periodic", 1, 76, False),
+                  ("noise", "cov", "vector", 75, False), ("prior", "prec", "full", 75, False),
+                  ("prior", "prec", "vector", 76, True), ("gmrf", "zero", 1, 77, True)]      # with the affine read-off evaluated in Coq
     seen, out = set(), []
     for c in cells:
         if c not in seen:
@@ -872,37 +1088,41 @@ def lattice_big(ctx):
 
 
 def gen_big_spec(cuqi, rng, cell):
-    idx, iface, role, form, shape = cell
-    for attempt in range(40):
+    idx, iface, role, form, shape, dim, coq_law = cell
+    for attempt in range(60):
         NARROW[0] = True
         try:
-            spec = _gen_big_once(rng, idx, iface, role, form, shape)
+            spec = _gen_big_once(rng, idx, iface, role, form, shape, dim)
         finally:
             NARROW[0] = False
-        H, r = user_posterior(spec, {})
+        spec["big_law"] = coq_law
+        Pop = ref_prec_op(shape, dim, form, False) if role == "gmrf" else None
+        H, r = user_posterior(spec, {"Pop": Pop})
         if np.linalg.cond(np.array([[float(v) for v in row] for row in H])) <= 2e4:
             return spec
     raise RuntimeError("could not generate a well-conditioned large configuration %r" % (cell,))
 
 
-def _gen_big_once(rng, idx, iface, role, form, shape):
-    if True:
+def _gen_big_once(rng, idx, iface, role, form, shape, dim):
+    if role in ("prior", "gmrf"):
+        n, m = dim, (3 if role == "prior" else 8)
+        A = [[float(rng.choice([0, 0, 0, 0, 0, 1, -1] if role == "prior" else [1, 1, 0, 2])) for _ in range(n)] for _ in range(m)]
+        noise = gen_gspec(rng, m, *NOISE_CELLS[idx % 16])
         if role == "prior":
-            n, m = BIG, 3
-            A = [[float(rng.choice([0, 0, 0, 0, 0, 1, -1])) for _ in range(n)] for _ in range(m)]
-            noise = gen_gspec(rng, m, *NOISE_CELLS[idx % 16])
             prior = {"kind": "gaussian", "g": gen_gspec(rng, n, form, shape), "mean": [rng.randint(-4, 4) / 2] if idx % 2 else rand_dyadic_vec(rng, n),
                      "scalar_mean": bool(idx % 2)}
         else:
-            n, m = 3, BIG
-            A = rand_int_matrix(rng, m, n, -2, 2)
-            noise = gen_gspec(rng, m, form, shape)
-            prior = gen_prior(rng, n, PRIOR_CELLS[(idx * 5) % 32])
-        spec = {"kind": "rto", "iface": iface, "target": "posterior", "mkind": ["matrix", "function"][idx % 2], "n": n,
-                "liks": [{"A": A, "b": [float(rng.randint(-5, 5)) for _ in range(m)], "noise": noise}], "prior": prior,
-                "xcurs": [[0.0] * n], "shape": "big", "idx": idx}
-        spec["cell"] = "rto-dim76/%s/%s=%s-%s" % (iface, role, form, shape)
-        return spec
+            prior = {"kind": "gmrf", "bc": form, "order": shape, "prec": rng.choice([1.0, 4.0, 16.0]), "mean": rand_dyadic_vec(rng, n), "scalar_mean": False}
+    else:
+        n, m = 3, dim
+        A = rand_int_matrix(rng, m, n, -2, 2)
+        noise = gen_gspec(rng, m, form, shape)
+        prior = gen_prior(rng, n, PRIOR_CELLS[(idx * 5) % 32])
+    spec = {"kind": "rto", "iface": iface, "target": "posterior", "mkind": ["matrix", "function"][idx % 2], "n": n,
+            "liks": [{"A": A, "b": [float(rng.randint(-5, 5)) for _ in range(m)], "noise": noise}], "prior": prior,
+            "xcurs": [[0.0] * n], "shape": "big", "idx": idx}
+    spec["cell"] = "rto-dim%d/%s/%s=%s-%s" % (dim, iface, role, form, shape)
+    return spec
 
 
 UGLA_LOCS = ["zero", "scalar", "vector", "const-vector"]
@@ -969,6 +1189,15 @@ def gen_ugla_spec(rng, cell):
     spec = {"kind": "ugla", "iface": iface, "target": "posterior", "mkind": mkind, "n": n,
             "liks": [{"A": A, "b": [float(rng.randint(-5, 5)) for _ in range(m)], "noise": gen_gspec(rng, m, f, s)}],
             "prior": {"kind": "lmrf", "bc": bc, "loc": loc, "scale": scale, "two_d": two_d}, "beta": beta, "xcurs": [xk], "idx": i}
+    spec["entry"] = ENTRIES[iface][(i // 2) % 3]
+    spec["x0_default"] = bool((i // 3) % 2)
+    spec["ugla_rng"] = bool(iface == "legacy" and (i // 2) % 2)
+    spec["decl"] = (DECLS_2D if mkind == "matrix" else DECLS_1D)[(i // 2) % (10 if mkind == "matrix" else 6)]
+    g = spec["liks"][0]["noise"]
+    if g["shape"] in ("diagmat", "full"):
+        g["decl"] = DECLS_2D[i % 10]
+    elif g["shape"] == "vector":
+        g["decl"] = DECLS_1D[i % 6]
     spec["cell"] = cell_name(spec) + "%s/noise=%s-%s/units=%s" % ("/2d" if two_d else "", f, s, patname)
     return apply_scale(spec, PATTERN_BY_NAME[patname])
 
@@ -1026,6 +1255,19 @@ def c_prior_spec(spec, obs):
     return "(PJoint %s)" % clist(["(%s, %s)" % (qm(b["S"]), qv(b["mean"])) for b in p["blocks"]])
 
 
+def side_conditions(spec, obs, cases, cell):
+    """DECISION cases: the prior object carries the documented difference / precision operator; no array handed to the
+    implementation was modified"""
+    if "op_matches" in obs:
+        ok = obs["op_matches"]
+        cases.append(Case(expr=cbool(ok), meta={"spec": spec, "stage": "operator"}, cell=cell, kind="DECISION",
+                          impl_fail=None if ok else "the prior's difference / precision operator is not the documented finite-difference stencil",
+                          signature="" if ok else signature_of(spec, "operator")))
+    bad = obs.get("inputs_modified") or []
+    cases.append(Case(expr=cbool(not bad), meta={"spec": spec, "stage": "inputs"}, cell=cell, kind="DECISION",
+                      impl_fail=None if not bad else "; ".join(bad[:3]), signature="" if not bad else signature_of(spec, "input-modified")))
+
+
 def rto_cases(spec, obs, fail, only_precompute=False):
     n, p = spec["n"], obs["p"]
     cell = cell_name(spec)
@@ -1045,15 +1287,18 @@ def rto_cases(spec, obs, fail, only_precompute=False):
     items = ["(%s, %s, %s, %s)" % (COQF[l["noise"]["form"]], cnat(len(l["b"])), c_gval(l["noise"]), qm(S))
              for l, S in zip(spec["liks"], obs["S_liks"])]
     pr = spec["prior"]
-    forms = "check_forms tol9 %s" % clist(items)
+    # (a matrix handed over in float32 is processed in float32 inside Gaussian: its square root is accurate to ~1e-7 only)
+    ftol = lambda gs: "tol6" if any(g.get("decl") == "f32" for g in gs) else "tol9"
+    forms = "check_forms %s %s" % (ftol([l["noise"] for l in spec["liks"]]), clist(items))
     if pr["kind"] == "gaussian":
-        forms += " && check_forms tol9 [(%s, %s, %s, %s)]" % (COQF[pr["g"]["form"]], cnat(n), c_gval(pr["g"]), qm(obs["S_prior"]))
+        forms += " && check_forms %s [(%s, %s, %s, %s)]" % (ftol([pr["g"]]), COQF[pr["g"]["form"]], cnat(n), c_gval(pr["g"]), qm(obs["S_prior"]))
     elif pr["kind"] == "gmrf":
         reg = SQRT_EPS if pr["bc"] != "zero" else 0.0
         forms += " && gmrf_sqrtprec_ok tol9 %s %s %s %s %s" % (cnat(n), qs(pr["prec"]), qs(reg), qm(obs["Pop"]), qm(obs["S_prior"]))
     else:
         forms += " && qcll_eqb %s %s" % (qm(obs["S_prior"]), qm([r for b in pr["blocks"] for r in b["S"]]))
     add("forms", forms)
+    side_conditions(spec, obs, cases, cell)
     # 2. b_tild and the stacked operator
     exact = all_small(obs["S_prior"], *obs["S_liks"]) and all_small(pr.get("mean", [0])) and \
         (pr["kind"] != "joint" or all_small(*[b["mean"] for b in pr["blocks"]]))
@@ -1077,7 +1322,7 @@ def rto_cases(spec, obs, fail, only_precompute=False):
     ls = clist(["(%s, %s, %s, %s)" % (qm(l["A"]), COQF[l["noise"]["form"]], c_gval(l["noise"]), qv(l["b"])) for l in spec["liks"]])
     x0 = obs["draws"][0]["x"]
     xs = [obs["draws"][1 + i]["x"] for i in range(p)]
-    if n > 40:
+    if n > 40 and not spec.get("big_law"):
         # dimension > 75: the read-off H x(0) = rhs, H G G^T = I is evaluated by the oracle only (float64 on exact H); the model
         # side certifies forms, precompute and a subset of the transitions
         add("law", cbool(fail is None or fail[0] in ("state", "affine")))
@@ -1088,7 +1333,7 @@ def rto_cases(spec, obs, fail, only_precompute=False):
     pairs = []
     for d in obs["draws"]:
         key = tuple(d["e"])
-        if key in ref:
+        if key in ref and not d.get("extreme"):
             pairs.append("(%s, %s)" % (qv(d["x"]), qv(ref[key])))
         ref.setdefault(key, d["x"])
     add("state", "check_state_indep tol6 %s %s %s %s" % (qs(obs["c"]), qv(x0), qm(xs), clist(pairs)))
@@ -1122,7 +1367,12 @@ def ugla_cases(spec, obs, fail, fixed):
     def add(stage, expr, impl=False):
         cases.append(Case(expr=expr, meta={"spec": spec, "stage": stage, "variant": variant}, cell=cell, kind="EXACT",
                           impl_fail=detail if impl else None, signature=sig if impl else ""))
-    add("forms", "check_forms tol9 [(%s, %s, %s, %s)]" % (COQF[l["noise"]["form"]], cnat(len(l["b"])), c_gval(l["noise"]), qm(obs["S_liks"][0])))
+    add("forms", "check_forms %s [(%s, %s, %s, %s)]" % ("tol6" if l["noise"].get("decl") == "f32" else "tol9", COQF[l["noise"]["form"]], cnat(len(l["b"])),
+                                                          c_gval(l["noise"]), qm(obs["S_liks"][0])))
+    side_conditions(spec, obs, cases, cell)
+    two_d = bool(pr.get("two_d"))
+    add("operator-model", "check_lmrf_D %s %s %s %s" % (cbool(two_d), {"zero": "BcZero", "neumann": "BcNeumann", "periodic": "BcPeriodic"}[pr["bc"]],
+                                                         cnat(int(round(n ** 0.5)) if two_d else n), qm(obs["D"])))
     add("precompute", "check_ugla_precompute tol9 %s %s %s %s %s %s %s %s" % (
         variant, raw, qv(xk), qv(sw), qm(obs["L2"]), qv(obs["b_tild"]), qm(obs["M_fwd"]), qm(obs["M_adj"])))
     dr = clist(["(%s, %s)" % (qv(d["e"]), qv(d["x"])) for d in obs["draws"]])
@@ -1177,12 +1427,24 @@ def build_rto(cuqi, rng, cellspec):
         pr = spec["prior"]
         Pop = None
         if pr["kind"] == "gmrf":
-            with quiet():
-                Pop = dense(mk_prior(cuqi, spec)._prec_op.get_matrix()).tolist()
+            Pop = ref_prec_op(pr["order"], spec["n"], pr["bc"], bool(pr.get("two_d")))
         H, r = user_posterior(spec, {"Pop": Pop})
         Hf = np.array([[float(v) for v in row] for row in H])
         if not np.all(np.isfinite(Hf)) or np.linalg.cond(Hf) > 2e3:
             continue
+        # options of the entry points and declaration styles cycle with the cell index (not with the seed)
+        idx = spec["idx"]
+        spec["entry"] = ENTRIES[spec["iface"]][(idx // 2) % 3]
+        spec["x0_default"] = bool((idx // 3) % 2)
+        spec["decl"] = (DECLS_2D if spec["mkind"] == "matrix" else DECLS_1D)[(idx // 2) % (10 if spec["mkind"] == "matrix" else 6)]
+        for gi, g in enumerate([l["noise"] for l in spec["liks"]] + ([pr["g"]] if pr["kind"] == "gaussian" else [])):
+            if g["shape"] in ("diagmat", "full"):
+                g["decl"] = DECLS_2D[(idx + 3 * gi) % 10]
+            elif g["shape"] == "vector":
+                g["decl"] = DECLS_1D[(idx + gi) % 6]
+        if spec["target"] == "tuple":
+            spec["decl"] = "dense"
+        spec["xdir"] = [float(rng.choice([-1, 1]) * rng.randint(1, 4)) for _ in range(spec["n"])]
         # current states at the natural scale of the posterior (a chain's state is a draw): power of two next to
         # max(|posterior mean|, largest posterior standard deviation), both exact
         mean_f, cov_f = f_solve_inv(H, r)
@@ -1250,7 +1512,8 @@ def regularized_cases(cuqi, rng, ctx):
                    "M_fwd": [np.array(s.M(np.array(basis(n, j)), 1), dtype=float).tolist() for j in range(n)],
                    "M_adj": [np.array(s.M(np.array(basis(p, i)), 2), dtype=float).tolist() for i in range(p)]}
             if p_["kind"] == "gmrf":
-                obs["Pop"] = dense(s.prior._prec_op.get_matrix()).tolist()
+                obs["Pop"] = [[float(v) for v in r] for r in ref_prec_op(p_["order"], n, p_["bc"], False)]
+                obs["op_matches"] = bool(np.array_equal(dense(s.prior._prec_op.get_matrix()), np.array(obs["Pop"])))
         except Exception as ex:
             cases.append(raised_case(spec, {"raised": "%s: %s" % (type(ex).__name__, ex)}))
             continue
@@ -1334,9 +1597,9 @@ def build_shared(cuqi, spec, lik_index=0):
     with quiet():
         x = mk_prior(cuqi, spec)
         l = spec["liks"][lik_index]
-        model = mk_model(cuqi, l["A"], spec["mkind"], len(l["b"]), dom_geom(cuqi, spec))
+        model = mk_model(cuqi, l["A"], spec["mkind"], len(l["b"]), dom_geom(cuqi, spec), spec.get("decl", "dense"))
         y = cuqi.distribution.Gaussian(model(x), name="y%d" % lik_index, **gauss_kwargs(l["noise"]))
-        L = y.to_likelihood(np.array(l["b"], dtype=float))
+        L = y.to_likelihood(decl_vec(l["b"], spec.get("decl", "dense")))
         post = cuqi.distribution.Posterior(L, x)
     return {"x": x, "y": y, "L": L, "post": post}
 
@@ -1427,13 +1690,21 @@ def history_cells(ctx):
             for k, what in enumerate(("scale", "location", "noise", "data")):
                 cells.append(("ugla", ("lmrf", ["zero", "neumann", "periodic"][(k + rep) % 3]), (FORMS[(k + rep) % 4], SHAPES[(k + 2 * rep + 3) % 4]),
                               ("prior" if what in ("scale", "location") else what, what, SHAPES[(k + rep) % 4])))
+            # two parameters re-assigned between the samplers
+            f1, f2 = FORMS[(j + rep) % 4], FORMS[(j + rep + 1) % 4]
+            cells.append(("rto", ("gaussian", f1, SHAPES[(j + 1) % 4], False), NOISE_CELLS[(j + rep + 2) % 16],
+                          [("prior", f1, SHAPES[(j + 2) % 4]), ("data", "data", None)]))
+            cells.append(("rto", ("gmrf", "zero", 1, None), (f2, SHAPES[(j + 3) % 4]), [("noise", f2, SHAPES[j % 4]), ("prior", "prec", None)]))
+            cells.append(("ugla", ("lmrf", "zero"), (f1, SHAPES[(j + 1) % 4]), [("prior", "scale", None), ("data", "data", None)]))
+            cells.append(("ugla", ("lmrf", "neumann"), (f2, SHAPES[(j + 2) % 4]), [("prior", "location", None), ("noise", "noise", SHAPES[(j + 3) % 4])]))
             for c in cells:
                 out.append((len(out),) + (c[0], iface) + c[1:])
     return out
 
 
 def gen_history(cuqi, rng, cell):
-    hid, skind, iface, pc, nc, (who, param, shape) = cell
+    hid, skind, iface, pc, nc, assigns = cell
+    assigns = assigns if isinstance(assigns, list) else [assigns]
     for attempt in range(40):
         if skind == "rto":
             spec = gen_rto_spec(rng, hid, iface, "posterior", ["matrix", "function"][hid % 2], [nc], pc, ["over", "square", "under"][hid % 3])
@@ -1441,26 +1712,30 @@ def gen_history(cuqi, rng, cell):
             spec = gen_ugla_spec(rng, (hid, iface, ["matrix", "function"][hid % 2], pc[1], UGLA_LOCS[hid % 4], [1.0, 0.25, 4.0][hid % 3],
                                        [1.0, 0.25][hid % 2], ["zero", "random"][hid % 2], nc, "base"))
         n, m = spec["n"], len(spec["liks"][0]["b"])
-        if who == "data":
-            val = [float(rng.randint(-5, 5)) for _ in range(m)]
-        elif who == "noise":
-            val = gen_gspec(rng, m, nc[0], shape)
-            param = nc[0]
-        elif param == "mean":
-            val = rand_dyadic_vec(rng, n)
-        elif param == "location":
-            val = rand_dyadic_vec(rng, n, 2, -3, 3) if hid % 2 else [rng.choice([1.0, -2.0, 0.5])]
-        elif param == "scale":
-            val = rng.choice([v for v in (1.0, 0.25, 4.0, 2.0) if v != spec["prior"]["scale"]])
-        elif param == "prec" and pc[0] == "gmrf":
-            val = rng.choice([v for v in (1.0, 4.0, 0.25, 3.0, 0.5) if v != spec["prior"]["prec"]])
-        else:
-            val = gen_gspec(rng, n, pc[1], shape)
-            param = pc[1]
-        asg = {"who": who, "param": param, "value": val}
+        asg = []
+        for (who, param, shape) in assigns:
+            if who == "data":
+                val = [float(rng.randint(-5, 5)) for _ in range(m)]
+            elif who == "noise":
+                val = gen_gspec(rng, m, nc[0], shape)
+                param = nc[0]
+            elif param == "mean":
+                val = rand_dyadic_vec(rng, n)
+            elif param == "location":
+                val = rand_dyadic_vec(rng, n, 2, -3, 3) if hid % 2 else [rng.choice([1.0, -2.0, 0.5])]
+            elif param == "scale":
+                val = rng.choice([v for v in (1.0, 0.25, 4.0, 2.0) if v != spec["prior"]["scale"]])
+            elif param == "prec" and pc[0] == "gmrf":
+                val = rng.choice([v for v in (1.0, 4.0, 0.25, 3.0, 0.5) if v != spec["prior"]["prec"]])
+            else:
+                val = gen_gspec(rng, n, pc[1], shape)
+                param = pc[1]
+            asg.append({"who": who, "param": param, "value": val})
         spec["xcurs"] = [spec["xcurs"][0]]
         spec.pop("estar", None)
-        spec1 = apply_assign(spec, asg)
+        spec1 = spec
+        for a_ in asg:
+            spec1 = apply_assign(spec1, a_)
         if spec1 == spec:
             continue
         # a second likelihood for the sampler that shares the prior object
@@ -1471,15 +1746,14 @@ def gen_history(cuqi, rng, cell):
             for sp in (spec, spec1, dict(spec1, liks=[lb])):
                 Pop = None
                 if sp["prior"]["kind"] == "gmrf":
-                    with quiet():
-                        Pop = dense(mk_prior(cuqi, sp)._prec_op.get_matrix()).tolist()
+                    Pop = ref_prec_op(sp["prior"]["order"], sp["n"], sp["prior"]["bc"], bool(sp["prior"].get("two_d")))
                 H, r = user_posterior(sp, {"Pop": Pop})
                 if np.linalg.cond(np.array([[float(v) for v in row] for row in H])) > 2e3:
                     ok = False
             if not ok:
                 continue
-        base = "history/%s/%s/%s/reassign-%s-%s" % (skind, iface, cell_name(spec).split("/prior=")[-1].split("/units")[0] if skind == "rto" else spec["prior"]["bc"],
-                                                     who, param)
+        base = "history/%s/%s/%s/reassign-%s" % (skind, iface, cell_name(spec).split("/prior=")[-1].split("/units")[0] if skind == "rto" else spec["prior"]["bc"],
+                                                  "+".join("%s-%s" % (a_["who"], a_["param"]) for a_ in asg))
         return {"id": hid, "skind": skind, "iface": iface, "spec0": spec, "spec1": spec1, "assign": asg, "lik_b": lb, "cell": base}
     raise RuntimeError("could not generate history %r" % (cell,))
 
@@ -1528,7 +1802,9 @@ def run_history(cuqi, h, st_ugla, st_flag2):
     S1 = obsA["_sampler"]
     snapA = snapshot(obsA)
     # re-assign in place
-    do_assign(objs, asg)
+    for a_ in asg:
+        do_assign(objs, a_)
+    asg_label = "+".join("%s-%s" % (a_["who"], a_["param"]) for a_ in asg)
     # step B: new sampler on the SAME objects = sampler of fresh objects carrying the new value
     obsB = guarded(lambda: observe(cuqi, spec1, target=objs["post"]))
     emit(spec1, obsB, "B-new-sampler-same-objects")
@@ -1542,10 +1818,10 @@ def run_history(cuqi, h, st_ugla, st_flag2):
     cases.append(Case(expr=cbool(same), meta={"hspec": {k: h[k] for k in ("id", "skind", "iface", "spec0", "spec1", "assign", "lik_b", "cell")},
                                               "step": "B-bitwise-vs-fresh", "stage": "bitwise"}, cell=h["cell"] + "/B-bitwise-vs-fresh", kind="DECISION",
                       impl_fail=None if same else "a sampler built on the re-assigned objects differs (b_tild / M / draws) from one built on fresh objects with the same values",
-                      signature="" if same else ("%s|history:rebuild-differs-from-fresh|%s-%s" % (iface, asg["who"], asg["param"]))))
+                      signature="" if same else ("%s|history:rebuild-differs-from-fresh|%s" % (iface, asg_label))))
     # step C: the OLD sampler keeps being used
     if skind == "rto":
-        noise_changed = asg["who"] == "noise"
+        noise_changed = any(a_["who"] == "noise" for a_ in asg)
         if not noise_changed or st_flag2[iface] == "captured":
             obsC = guarded(lambda: observe(cuqi, spec0, target=objs["post"], sampler=S1))
             if "raised" not in obsC:
@@ -1558,11 +1834,18 @@ def run_history(cuqi, h, st_ugla, st_flag2):
         if iface == "legacy":
             mixed = spec1
         else:
-            mixed = spec1 if UGLA_EXP_STALE[asg["param"] if asg["who"] == "prior" else asg["who"]] == "new" else spec0
+            mixed = spec0
+            for a_ in asg:
+                if UGLA_EXP_STALE[a_["param"] if a_["who"] == "prior" else a_["who"]] == "new":
+                    mixed = apply_assign(mixed, a_)
+            if mixed == spec1:
+                mixed = spec1
+            elif mixed == spec0:
+                mixed = spec0
         obsC = guarded(lambda: observe(cuqi, mixed, target=objs["post"], sampler=S1))
-        if "raised" not in obsC and mixed is spec0:
+        if "raised" not in obsC and mixed["liks"][0]["noise"] == spec0["liks"][0]["noise"]:
             obsC["S_liks"] = obsA["S_liks"]
-        emit(mixed, obsC, "C-old-sampler-after-reassign(%s)" % ("new value" if mixed is spec1 else "snapshot"))
+        emit(mixed, obsC, "C-old-sampler-after-reassign(%s)" % ("new values" if mixed is spec1 else ("snapshot" if mixed is spec0 else "mixed")))
     # step D: a third sampler shares the prior object with another likelihood; the second one must be unaffected
     if skind == "rto":
         specD = dict(copy.deepcopy(spec1), liks=[h["lik_b"]])
@@ -1580,7 +1863,7 @@ def run_history(cuqi, h, st_ugla, st_flag2):
     cases.append(Case(expr=cbool(alive), meta={"hspec": {k: h[k] for k in ("id", "skind", "iface", "spec0", "spec1", "assign", "lik_b", "cell")},
                                                "step": "E-keep-alive", "stage": "bitwise"}, cell=h["cell"] + "/E-keep-alive", kind="DECISION",
                       impl_fail=None if alive else "a living sampler changed (b_tild / M / draws) although none of its objects was touched since it was last read",
-                      signature="" if alive else ("%s|history:living-sampler-changed|%s-%s" % (iface, asg["who"], asg["param"]))))
+                      signature="" if alive else ("%s|history:living-sampler-changed|%s" % (iface, asg_label))))
     return cases
 
 
@@ -1618,7 +1901,7 @@ def stale_noise_cases(cuqi, h, objs, S1, obsA, obsB, tag):
     detail = None
     if not any(verdicts):
         detail = ("old sampler after the noise %s was re-assigned in place: x(e=0) = %s is the mean of neither the posterior at construction "
-                  "nor the current one (flag 1 uses the captured sqrtprec, flag 2 the re-read one)" % (h["assign"]["param"], x0.tolist()))
+                  "nor the current one (flag 1 uses the captured sqrtprec, flag 2 the re-read one)" % ("+".join(a_["param"] for a_ in h["assign"] if a_["who"] == "noise"), x0.tolist()))
     cases.append(Case(expr="true", meta={"spec": sp, "hspec": hmeta, "step": "C-stale", "stage": "stale-draw"}, cell=sp["cell"],
                       impl_fail=detail, signature=SIG_STALE[iface] if detail else ""))
     return cases
@@ -1640,6 +1923,7 @@ def run(ctx):
         cases += rto_cases(spec, obs, fail)
         ndraws += len(obs["draws"])
         nfired += sum(1 for d in obs["draws"] if d["fired"])
+    ctx.note("main lattice driven in %.0fs" % (time.time() - ctx.t0))
     for cell in lattice_big(ctx):
         spec = gen_big_spec(cuqi, rng, cell)
         obs = try_observe(cuqi, spec)
@@ -1650,6 +1934,7 @@ def run(ctx):
         cases += rto_cases(spec, obs, oracle_check(spec, obs))
         ndraws += len(obs["draws"])
         nfired += sum(1 for d in obs["draws"] if d["fired"])
+    ctx.note("large-dimension cells driven, %.0fs" % (time.time() - ctx.t0))
     cases += regularized_cases(cuqi, rng, ctx)
     cases += refusal_cases(cuqi, rng)
     # ---- UGLA -----------------------------------------------------------------------------------
@@ -1668,6 +1953,7 @@ def run(ctx):
         cases += ugla_cases(spec, obs, fail, st[spec["iface"]][0])
         ndraws += len(obs["draws"])
         nfired += sum(1 for d in obs["draws"] if d["fired"])
+    ctx.note("UGLA lattice driven, %.0fs" % (time.time() - ctx.t0))
     # ---- histories on shared objects ---------------------------------------------------------------
     st2 = probe_flag2(cuqi)
     for iface in ("exp", "legacy"):
@@ -1679,7 +1965,11 @@ def run(ctx):
         cases += run_history(cuqi, h, st, st2)
         nh += 1
     ctx.note("%d parameter re-assignment histories on shared objects" % nh)
+    ctx.note("driver time so far %.0fs" % (time.time() - ctx.t0))
     ctx.note("CGLS stopping test fired in %d of %d scripted transitions (tol %g, maxit %d)" % (nfired, ndraws, TOL, MAXIT))
+    # spread the expensive cases (large dimensions, long histories) evenly over the shards, which are consecutive slices
+    nsh = max(1, -(-len(cases) // SHARD))
+    cases = [c for r in range(nsh) for c in cases[r::nsh]]
     return Result(cases=cases, rule=RULE,
                   extra={"scripted_transitions": ndraws, "cgls_stop_fired": nfired,
                          "ugla_state": {k: ("repaired" if v[0] else "defect-present") for k, v in st.items()}},
@@ -1778,7 +2068,8 @@ def replay(ctx, meta):
     print(json.dumps({k: v for k, v in meta.items() if k != "meta"}, indent=1)[:3000])
     if m.get("hspec"):
         h = m["hspec"]
-        print("history %s: re-assign %s.%s in place to %s" % (h["cell"], h["assign"]["who"], h["assign"]["param"], json.dumps(h["assign"]["value"])[:400]))
+        for a_ in h["assign"]:
+            print("history %s: re-assign %s.%s in place to %s" % (h["cell"], a_["who"], a_["param"], json.dumps(a_["value"])[:400]))
         print("objects before:", json.dumps({"liks": h["spec0"]["liks"], "prior": h["spec0"]["prior"]})[:1500])
         for c in rerun_history(cuqi, m):
             if c.meta.get("stage") in ("law", "bitwise", "stale-draw", "raised"):
